@@ -10,12 +10,54 @@ let arg_txin t = match split ':' t with
 let arg_txout t = match split ':' t with
   | [v; s] -> { to_value = arg_z v; to_script = arg_bytes s }
   | _ -> failwith ("arg_txout " ^ t)
+let arg_unspent t = if t = "N" then None else Some (arg_txout t)
+let arg_optz t = if t = "N" then None else Some (arg_z t)
 let arg_tx v ins outs l = { tx_version = arg_z v; tx_ins = arg_list arg_txin ins; tx_outs = arg_list arg_txout outs;
                             tx_lock_time = arg_z l }
 let show_unit () = "N"
 let nth_bit bits n = let k = int_of_nat n in if k < List.length bits then List.nth bits k else false
 
+
+(* histories (Model/TxObject.v): history <hash oracle> <tx: 4 tokens> <unspents> <op> <op> ...   op fields separated by '/' *)
+let arg_flags t = (t.[0] = 'T', t.[1] = 'T', t.[2] = 'T')
+let arg_op t = match split '/' t with
+  | ["mw"; i; w] -> Mut (MSetWitness (arg_nat i, arg_wit w))
+  | ["aw"; i; w] -> Mut (MAssignWitness (arg_nat i, arg_wit w))
+  | ["as"; i; s] -> Mut (MAssignInScript (arg_nat i, arg_bytes s))
+  | ["ah"; i; s] -> Mut (MAssignInHash (arg_nat i, arg_bytes s))
+  | ["ai"; i; z] -> Mut (MAssignInIndex (arg_nat i, arg_z z))
+  | ["aq"; i; z] -> Mut (MAssignInSeq (arg_nat i, arg_z z))
+  | ["pi"; x] -> Mut (MAppendIn (arg_txin x))
+  | ["xi"] -> Mut MPopIn
+  | ["ci"] -> Mut MClearIns
+  | ["po"; o] -> Mut (MAppendOut (arg_txout o))
+  | ["xo"] -> Mut MPopOut
+  | ["co"] -> Mut MClearOuts
+  | ["ov"; i; z] -> Mut (MAssignOutValue (arg_nat i, arg_z z))
+  | ["os"; i; s] -> Mut (MAssignOutScript (arg_nat i, arg_bytes s))
+  | ["av"; z] -> Mut (MAssignVersion (arg_z z))
+  | ["al"; z] -> Mut (MAssignLockTime (arg_z z))
+  | ["su"; us] -> Mut (MSetUnspents (arg_list arg_unspent us))
+  | ["au"; us] -> Mut (MAssignUnspents (arg_list arg_unspent us))
+  | ["ob"; fl] -> let (a, b, c) = arg_flags fl in Obs (OAsBin (a, b, c))
+  | ["ox"; fl] -> let (a, b, c) = arg_flags fl in Obs (OAsHex (a, b, c))
+  | ["oh"; ht] -> Obs (OHash (arg_optz ht))
+  | ["ow"] -> Obs OWHash
+  | ["ok"] -> Obs OBlankedHash
+  | ["oi"] -> Obs OId
+  | ["oj"] -> Obs OWId
+  | ["on"] -> Obs OHasWitness
+  | ["oc"] -> Obs OIsCoinbase
+  | ["om"] -> Obs OMissingUnspents
+  | ["ck"; mm; ms] -> Obs (OCheck (arg_z mm, arg_z ms))
+  | _ -> failwith ("arg_op " ^ t)
+let show_oval = function RBytes b -> show_bytes b | RBool b -> show_bool b | RNone -> "N"
+let history h v ins outs l us ops =
+  show_list (show_outcome show_oval)
+    (run (oracle h) (List.map arg_op ops) { ob_tx = arg_tx v ins outs l; ob_unspents = arg_list arg_unspent us })
+
 let dispatch f args = match f, args with
+  | "history", h :: v :: ins :: outs :: l :: us :: ops -> history h v ins outs l us ops
   | "check", [coin; ids; v; ins; outs; l] ->
     show_outcome show_unit (check_coin (arg_bytes coin) (arg_list arg_n ids) (arg_tx v ins outs l))
   | "check_limits", [mm; ms; ids; v; ins; outs; l] ->
